@@ -23,8 +23,14 @@ mut_demo=$(go test -vet=off -count=1 -run "$run" ./$dir/ 2>&1 | tail -5);
 echo "$mut_demo" | grep -q '^ok' && mut_rc=0 || mut_rc=1
 rm $dir/zz_${m}_demo_test.go
 go build ./... || { echo "BUILD FAILED"; exit 3; }
-suite=$(go test -vet=off -count=1 ./pkg/... 2>&1 | grep -v '^ok\|no test files' | head -20)
-suite_rc=0; [ -n "$suite" ] && suite_rc=1
+go test -vet=off -count=1 ./pkg/... > /tmp/suite-$sid.log 2>&1; suite_rc=$?
+suite=$(grep -E '^(FAIL|--- FAIL|panic:)' /tmp/suite-$sid.log | head -10 | tr '"' "'")
+if [ $suite_rc -ne 0 ]; then
+  # the repository has timing-flaky tests (documented by the agents): one retry of the failing packages
+  pk=$(grep -E '^FAIL\s' /tmp/suite-$sid.log | awk '{print $2}' | grep cosi | sed 's#github.com/cosi-project/runtime#.#' | sort -u | tr '\n' ' ')
+  if [ -n "$pk" ] && go test -vet=off -count=1 $pk > /tmp/suite-$sid.retry.log 2>&1; then suite_rc=0; suite="(passed on retry of: $pk) $suite"; fi
+fi
+rm -f /tmp/suite-$sid.log /tmp/suite-$sid.retry.log
 echo "clean demo: $(echo "$clean_demo" | tail -1)"
 echo "mutant demo rc=$mut_rc: $(echo "$mut_demo" | tail -2 | tr '\n' ' ')"
 echo "suite with change: rc=$suite_rc $suite"
